@@ -254,6 +254,12 @@ pub fn run(ctx: &Ctx, rep: &mut Report) {
         };
         let before = r.usize(4);
         let mut parts: Vec<String> = (0..before).map(|_| valid_primary(&mut r).to_string()).collect();
+        match r.below(5) {
+            0 => parts.push("(".into()),
+            1 => parts.push("!".into()),
+            2 if before > 0 => parts.push(r.pick(&["-o", "-a", ","]).to_string()),
+            _ => {}
+        }
         parts.push(w);
         for _ in 0..r.usize(3) {
             parts.push(valid_primary(&mut r).to_string());
